@@ -72,7 +72,8 @@ checks = {
     },
     "C01": {
         "verus": ["C01."],
-        "kani": gw_approve + [gw_approve3, k(GW, C + "c01_validate_proof_entry", "AxelarGateway::validate_proof")],
+        "kani": gw_approve + [gw_approve3, k(GW, C + "c01_validate_proof_entry", "AxelarGateway::validate_proof"),
+                              k(GW, C + "c01_weighted_signers_n3_bounded", "Proof::weighted_signers", bounded="a proof of exactly 3 entries (the Verus contract C01.weighted_signers.* covers any length)")],
     },
     "C02": {
         "scans": ["c02_writers"],
@@ -90,13 +91,15 @@ checks = {
     "C08": {
         "verus": ["C08."],
         # the configured retention must be the one construction stores
-        "kani": [dict(h, also=["C03.ctor_retention_stored"]) for h in gw_ctor] + [gw_rotate_entry, dict(gw_rotate_auth[0], also=["C03.never_installed_before", "C03.epoch_by_hash_set", "C03.epoch_plus_one"])] + [dict(gw_approve[1], also=["C01.approve_only_with_valid_proof", "C01.approve_digest", "C01.approve_err_is_proof_err"])] + [k(GW, C + "c01_validate_proof_entry", "AxelarGateway::validate_proof", also=["C01.entry"])],
+        # ... and the epoch must count installed sets only: "n newer sets have been installed" is measured as an epoch difference
+        "kani": [dict(h, also=["C03.ctor_retention_stored", "C03.ctor_epoch_counts_sets", "C03.ctor_propagates_refusal"]) for h in gw_ctor] + [dict(gw_rotate_entry, also=["C03.entry_propagates_refusal"]), dict(gw_rotate_auth[0], also=["C03.never_installed_before", "C03.epoch_by_hash_set", "C03.epoch_plus_one"])] + [dict(gw_approve[1], also=["C01.approve_only_with_valid_proof", "C01.approve_digest", "C01.approve_err_is_proof_err"])] + [k(GW, C + "c01_validate_proof_entry", "AxelarGateway::validate_proof", also=["C01.entry"])],
     },
     "C09": {
         "kani": [gw_update_ts, k(GW, A + "c03_rotate_signers", "auth::rotate_signers", also=["C03.delay_flag_forwarded"]), gw_rotate_entry],
     },
     "C13": {
-        "kani": [k(GW, C + "c13_call_contract", "AxelarGateway::call_contract")],
+        "kani": [k(GW, C + "c13_call_contract", "AxelarGateway::call_contract"),
+                 k(GW, C + "c13_call_contract_text_len2_bounded", "AxelarGateway::call_contract", bounded="destination chain = a string of exactly 2 arbitrary bytes (content-level model; the unbounded harness treats strings as abstract identities)")],
     },
 }
 
@@ -138,13 +141,15 @@ checks["C16"] = {"kani": [k(GW, "executable::verif::c16_default_validate_message
 checks["C06"] = {"kani": [
     k(GW, C + "c06_gateway_transfer_ownership", "AxelarGateway::transfer_ownership"), k(GW, C + "c06_gateway_transfer_operatorship", "AxelarGateway::transfer_operatorship"),
     k(GW, C + "c06_gateway_constructor", "AxelarGateway::__constructor"), gw_rotate_entry,
+    # "skipping the rotation delay needs the operator": a rotation that does not restart the clock hands the operator's bypass to the next caller
+    dict(gw_update_ts, also=["C09.clock_restarted", "C09.delay_enforced"]),
     gas("c06_gas_transfer_ownership", "transfer_ownership"), gas("c14_collect_fees", "collect_fees"), gas("c14_refund", "refund"), gas("c14_constructor_and_view", "__constructor"),
     ops("c06_operators_transfer_ownership", "transfer_ownership"), ops("c17_add_operator", "add_operator", also=["C17.add_absent_to_present", "C17.add_frame"]),
     ops("c17_remove_operator", "remove_operator", also=["C17.remove_present_to_absent", "C17.remove_frame"]), ops("c17_execute", "execute", also=["C17.only_current_operators"]),
 ] + token_admin + [dict(h, also=["C15.upgrade_needs_owner", "C15.migrate_needs_owner"]) for h in upgrades[:-1]]}
 checks["C07"] = {"kani": [
     # a negative amount would debit the counterparty without its authorisation, so the sign checks belong here too
-    tok("c12_transfer", "transfer", also=["C12.transfer_rejects_negative"]), tok("c12_approve", "approve", also=["C12.approve_rejects_negative"]),
+    tok("c12_transfer", "transfer", also=["C12.transfer_rejects_negative"]), tok("c12_approve", "approve", also=["C12.approve"]),  # a dropped / partly applied approve leaves a spender with rights the holder no longer authorises
     tok("c12_transfer_from", "transfer_from", also=["C12.transfer_from_rejects_negative", "C12.transfer_from_needs_live_allowance", "C12.transfer_from_moves"]),
     tok("c12_burn", "burn", also=["C12.burn_needs_balance"]), tok("c12_burn_from", "burn_from", also=["C12.burn_from_needs", "C12.burn_from_removes"]),
     tok("c12_mint_from", "mint_from", also=["C12.mint_rejects_negative", "C12.only_current_minters_mint"]), tok("c12_owner_mint", "mint", also=["C12.owner_mint_adds_exact_amount", "C06.owner_mint_needs_owner"]),
@@ -168,10 +173,17 @@ gw_once = [k(GW, C + "c02_validate_message", "AxelarGateway::validate_message (c
            dict(gw_approve[1], also=["C02.approve_step"]), dict(gw_approve[2], also=["C02.approve_step"])]
 checks["C04"] = {"kani": its_c04 + gw_once + [its("c04_is_trusted_chain_view", "is_trusted_chain"), codec_amount, k(GW, "executable::verif::c16_default_validate_message", "AxelarExecutableInterface::validate_message (default)", also=["C16.default"]),
                           its("c06_its_constructor_and_views", "__constructor / views", also=["C04.hub_chain_name_constant"])]}
+# the interchain token service is itself an executable-interface application
+checks["C16"]["kani"] += [dict(its_c04[0], also=["C04.approval_consumed", "C04.and_execute_message", "C04.entry_frame"])]
 checks["C05"] = {"kani": [
     its("c05_pay_gas_and_call_contract", "pay_gas_and_call_contract"), its("c05_interchain_transfer", "interchain_transfer / token_handler::take_token"),
     k(ITS, "token_handler::verif::c05_take_token", "token_handler::take_token"), k(ITS, "token_handler::verif::c05_give_token", "token_handler::give_token"),
     its_c04[2], codec_amount,
+    # "credits exactly the announced amount" is per approved delivery: the inbound entry point consumes the gateway approval
+    # (so a delivery cannot be replayed), through the default validate_message of the executable interface and the gateway's C02 contract
+    dict(its_c04[0], also=["C04.approval_consumed", "C04.and_execute_message", "C04.entry_frame"]),
+    k(GW, "executable::verif::c16_default_validate_message", "AxelarExecutableInterface::validate_message (default)", also=["C16.default"]),
+    gw_once[0],
     # the token contract the service relies on for burns / mints / custody transfers (C12)
     tok("c12_transfer", "transfer", also=["C12.transfer", "C12.self_transfer", "C12.balances"]), tok("c12_burn", "burn", also=["C12.burn"]),
     tok("c12_mint_from", "mint_from", also=["C12.mint", "C12.only_current", "C12.refused_mint"]), tok("c12_owner_mint", "mint", also=["C12.owner_mint"]),
@@ -233,7 +245,7 @@ _add_scans("C11", ["c11_registry_writers"])
 _add_scans("C17", ["c17_forwarders"])
 _add_scans("C06", ["c06_role_writers"])
 _add_scans("C07", ["c14_fund_movers", "c05_token_movers", "c17_forwarders", "c13_announcers"])
-_add_scans("C16", ["c02_exported_writers"])
+_add_scans("C16", ["c02_exported_writers", "c05_token_movers", "c11_registry_writers"])  # the service's effects are reachable only through entry points under contract
 _add_scans("C04", ["c05_token_movers", "c11_registry_writers"])
 _add_scans("C18", ["c05_token_movers"])
 
